@@ -1,5 +1,5 @@
 #!/usr/bin/env python3
-"""tools/mutsummary.py [results.jsonl] [--triage triage.json] -> prints a summary and writes mutation/SUMMARY.md
+"""tools/mutsummary.py [results.jsonl] [--triage triage.json] [--out FILE] -> prints a summary and writes mutation/SUMMARY.md (or FILE)
 
 triage.json maps mutant id -> {"class": "equivalent" | "out-of-scope" | "gap", "why": "..."} for
 the mutants that survive both the repository's suite and the checks."""
@@ -11,6 +11,9 @@ def main():
     tri_path = "/verif/mutation/triage.json"
     if "--triage" in a:
         tri_path = a[a.index("--triage") + 1]
+    out_path = "/verif/mutation/SUMMARY.md"
+    if "--out" in a:
+        out_path = a[a.index("--out") + 1]
     tri = json.load(open(tri_path)) if os.path.exists(tri_path) else {}
     rows = {}
     for l in open(path):
@@ -49,7 +52,7 @@ def main():
             edit = f"`{r['old'][:70]}` → `{r['new'][:70]}`".replace("|", "\\|")
             out.append(f"| {r['id']} | {r['file'].replace('crates/tower-resilience-', '')}:{r['line']} | {r['op']}: {edit} | {t.get('class', 'untriaged')} | {t.get('why', '')} |")
     text = "\n".join(out) + "\n"
-    open("/verif/mutation/SUMMARY.md", "w").write(text)
+    open(out_path, "w").write(text)
     print(text[:3000])
     print("statuses:", dict(st))
 
